@@ -299,18 +299,19 @@ Proof.
 Qed.
 
 Theorem cpu_all_histories (info : node_info) (h : list op) :
+  inv_valid (mkState info []) ->
   f_finite (nr_cpu (ni_usage info)) = true -> b2r (nr_cpu (ni_usage info)) = 0 ->
   Forall op_grid h -> bounded_run (mkState info []) h ->
   inv_cpu (run (mkState info []) h).
 Proof.
-  intros F E OG BR. apply (history_inv_cpu grid_closed_holds h _ OG BR).
+  intros IV F E OG BR. apply (history_inv_cpu grid_closed_holds h _ OG BR IV).
   split; [|split]; simpl.
   - apply cpu_is_zero; assumption.
   - constructor.
   - unfold ktotal, zs, BND. simpl. lia.
 Qed.
 
-Theorem cpu_step (s : state) (o : op) : op_grid o -> inv_cpu s ->
+Theorem cpu_step (s : state) (o : op) : op_grid o -> inv_valid s -> inv_cpu s ->
   (ktotal (st_live (sr_state (step s o))) <= BND)%Z -> inv_cpu (sr_state (step s o)).
 Proof. exact (step_inv_cpu grid_closed_holds s o). Qed.
 
